@@ -1,13 +1,21 @@
 #!/bin/bash
 # Regenerate the generated Coq tables from /repo's working tree and (re)build the development.
-set -e
+# Never fails because of a broken proof file: `make -k` builds what it can; each check then
+# requires the .vo files of its own property.
 HERE="$(cd "$(dirname "$0")" && pwd)"
 export PYTHONPATH=/repo PYTHONHASHSEED=0
 PY=/venv/bin/python
-mkdir -p "$HERE/coq/Gen"
-$PY "$HERE/translate/consts.py" "$HERE/coq/Gen/GenConsts.v" 2>&1 | grep -v 'conda.cli' || true
-cd "$HERE/coq"
-[ -f Makefile ] && [ Makefile -nt _CoqProject ] || coq_makefile -f _CoqProject -o Makefile >/dev/null
-timeout 3000 make -j16 2>&1 | grep -v 'conda.cli' | grep -v '^COQDEP\|^COQC\|^CoqMakefile' || true
-# fail if any target is missing
-for f in $(grep '\.v$' _CoqProject); do [ -f "${f}o" ] || { echo "BUILD FAILED: ${f}o missing"; exit 2; }; done
+mkdir -p "$HERE/coq/Gen" "$HERE/work"
+(
+  flock 9
+  : > "$HERE/work/translate.log"
+  for t in "$HERE"/translate/*.py; do
+    $PY "$t" "$HERE/coq/Gen" >> "$HERE/work/translate.log" 2>&1 || echo "TRANSLATOR FAILED: $t" >> "$HERE/work/translate.log"
+  done
+  cd "$HERE/coq"
+  { echo "-Q . PV"; ls Gen/*.v Model/*.v Spec/*.v Proofs/*.v Props/*.v 2>/dev/null; } > _CoqProject.new
+  if ! cmp -s _CoqProject.new _CoqProject; then mv _CoqProject.new _CoqProject; rm -f Makefile; else rm -f _CoqProject.new; fi
+  [ -f Makefile ] || coq_makefile -f _CoqProject -o Makefile >/dev/null
+  timeout 3000 make -k -j16 2>&1 | grep -v 'conda.cli' > "$HERE/work/build.log"
+) 9> "$HERE/work/.build.lock"
+exit 0
